@@ -179,19 +179,23 @@ namespace SamVerif.ParserLoops
 
 /-! ## parser_loops_progress: the recovery loops cannot spin
 
-Three loop skeletons (`Model/ParserLoops.lean`); whether each recovery arm consumes its token is read
+Five loop skeletons (`Model/ParserLoops.lean`); whether each recovery arm consumes its token is read
 from the source on every run (`Generated/ParserLoops.lean`). -/
 
 /-- **parser_loops_progress** (full strength, for every token list and every sub-parser that never
-un-reads): the top-level recovery loop, the comma-separated-list loop and the block statement loop
-each leave within `len + 1` iterations — every iteration consumes a token or exits, also at EOF. -/
+un-reads): the top-level recovery loop, the comma-separated-list loop, the block statement loop, the
+class-member loop and the match-arm loop each leave within `len + 1` iterations — every iteration
+consumes a token or exits, also at EOF. -/
 theorem parser_loops_progress (sub : List TK → List TK) (hs : NoUnread sub) (ts : List TK) :
     toplevelLoop sub (ts.length + 1) ts ≠ none ∧ commaLoop sub (ts.length + 1) ts ≠ none ∧
-      blockLoop sub (ts.length + 1) ts ≠ none :=
+      blockLoop sub (ts.length + 1) ts ≠ none ∧ memberLoop sub (ts.length + 1) ts ≠ none ∧
+      matchLoop sub (ts.length + 1) ts ≠ none :=
   ⟨toplevelLoop_progress sub hs _ ts (by omega), commaLoop_progress sub hs _ ts (by omega),
-   blockLoop_progress sub hs _ ts (by omega)⟩
+   blockLoop_progress sub hs _ ts (by omega), memberLoop_progress sub hs _ ts (by omega),
+   matchLoop_progress sub hs _ ts (by omega)⟩
 
 -- non-vacuity: `{ ) ) }`-like input: an expression parser that consumes nothing still terminates
 example : blockLoop id 5 [.other, .other, .rbrace, .cls] = some [.cls] := by decide
+example : matchLoop id 4 [.pat, .pat, .rbrace] = some [.rbrace] := by decide
 
 end SamVerif.ParserLoops
